@@ -340,10 +340,12 @@ func mergeRows(rowA, rowB map[string]any) map[string]any {
 
 func (df *DataFrame) AppendRow(result *DataFrame, row map[string]any) error {
 
-	// Add new columns if they don't exist.
+	// Add new columns if they don't exist, padded with nil for the rows already present
+	// so that every column keeps the same length.
+	nExisting := result.Nrows()
 	for name := range row {
 		if _, exists := result.Columns[name]; !exists {
-			newCol := NewColumn(name, make([]any, 0))
+			newCol := NewColumn(name, make([]any, nExisting))
 			// add the new column to the result dataframe
 			err := result.AddColumn(ConvertToAnyColumn(newCol))
 			if err != nil {
